@@ -112,6 +112,17 @@ def run():
             claim("compact", "have == datalen - bufpos after compaction", v is not None and A.holds(st, "==", v, fl2(w, "datalen") - fl2(w, "bufpos")), True)
             claim("compact", "bufpos == 0", A.holds(st, "==", fl2(w, "bufpos"), Lin.const(0)), True)
             claim("compact", "datalen == 0", A.holds(st, "==", fl2(w, "datalen"), Lin.const(0)), False)
+    # two_per_step: the affine join finds p == out + 2 i
+    f = u.func("two_per_step"); A = poly.Analysis(f, unsigned_terms={P(f, "n")}).run(); nn = Lin.var(P(f, "n"))
+    for r, st, v in retval(A, f):
+        claim("two_per_step", "p - out == 2 n at exit", v is not None and A.holds(st, "==", v, nn.scale(2)), True)
+        claim("two_per_step", "p - out <= n at exit", v is not None and A.holds(st, "<=", v, nn), False)
+        claim("two_per_step", "p - out == 3 n at exit", v is not None and A.holds(st, "==", v, nn.scale(3)), False)
+    # two_loops: the first loop's exit fact survives the second loop's widening
+    f = u.func("two_loops"); A = poly.Analysis(f, unsigned_terms={P(f, "n")}).run(); nn = Lin.var(P(f, "n"))
+    for r, st, v in retval(A, f):
+        claim("two_loops", "k == 2 n after both loops", v is not None and A.holds(st, "==", v, nn.scale(2)), True)
+        claim("two_loops", "k <= n after both loops", v is not None and A.holds(st, "<=", v, nn), False)
     return n, fails
 
 
